@@ -85,6 +85,11 @@ func emitFieldBattery(r *Rng, n *gnode, v *Sx, nmut int, emit func(*Sx)) {
 		emit(L(A("fld"), n.term, L(op("set", v), op("pack"), op("get"))))
 		return
 	}
+	// a composite packed, one of its set subfields unset, packed again: the second encoding is the layout of what is left
+	if n.comp && v.Head() == "C" && len(v.List) > 1 && len(v.List[1].List) >= 2 {
+		e := v.List[1].List[r.Intn(len(v.List[1].List))]
+		emit(L(A("fld"), n.term, L(op("set", v), op("pack"), op("unsetp", e.List[0]), op("pack"), op("get"))))
+	}
 	trail := r.Bytes(r.Intn(3))
 	emit(L(A("fld"), n.term, L(op("set", v), op("pack"), op("get"), op("reset"),
 		op("unpack", X(append(append([]byte(nil), packed...), trail...))), op("get"), op("pack"))))
@@ -97,6 +102,25 @@ func emitFieldBattery(r *Rng, n *gnode, v *Sx, nmut int, emit func(*Sx)) {
 func init() {
 	generators["fld"] = func(r *Rng, tier string, emit func(*Sx)) {
 		thorough := tier == "thorough"
+		// A0. numerals around the ends of the int range on the wire of Numeric fields (19 and 20 digits): whatever is
+		// accepted has to re-pack and be accepted again
+		for _, enc := range []string{"ASCII", "BCD", "EBCDIC"} {
+			for _, pref := range []string{"ASCII.LL", "ASCII.Fixed"} {
+				for _, num := range []string{"9223372036854775807", "9223372036854775808", "09223372036854775807", "18446744073709551615", "18446744073709551616",
+					"9999999999999999999", "99999999999999999999", "00000000000000000001", "10000000000000000000"} {
+					n := &gnode{kind: "Numeric", enc: enc, pref: pref, padK: "N", fixed: strings.HasSuffix(pref, ".Fixed"), L: len(num)}
+					if n.fixed {
+						n.padK, n.padB = "L", '0'
+					}
+					n.term = n.primTerm()
+					body, ok := refEncode(enc, []byte(num))
+					pre, ok2 := refPrefix(pref, n.L, len(num))
+					if ok && ok2 {
+						emit(L(A("fld"), n.term, L(op("unpack", X(append(append([]byte(nil), pre...), body...))), op("get"), op("pack"))))
+					}
+				}
+			}
+		}
 		// A. every cell kind x encoding x prefixer x padding, boundary lengths
 		prefs := append([]string{}, allVarPrefixers()...)
 		for _, f := range prefFamilies {
